@@ -38,6 +38,22 @@ class CoroutinesAdapter:
         env.prom = {}
         self.counter = getattr(self, 'counter', 0) + 1
         env.base_exc = self.counter % 2 == 0
+        # Quit and SwitchWorld are raised from coroutine bodies by design (quit_loop(), switch()): in a quarter of the
+        # behaviours the exception that escapes a body is one of the library's own control-flow signals
+        env.signal = (None, 'switch', None, 'quit')[(self.counter // 2) % 4] if self.counter % 2 else None
+        env.last_raised = None
+
+        def escaping():
+            if env.base_exc:
+                ex = BoomBase()
+            elif env.signal == 'switch':
+                ex = desper.SwitchWorld(type('H', (desper.Handle,), {'load': lambda self_: desper.World()})())
+            elif env.signal == 'quit':
+                ex = desper.Quit()
+            else:
+                ex = Boom()
+            env.last_raised = ex
+            return ex
         # a wait is a number: in every third behaviour an exact rational (all model times are dyadic, Fraction is exact)
         env.num = (lambda x: Fraction(x)) if self.counter % 3 == 1 else (lambda x: x)
         G = self.G
@@ -49,7 +65,7 @@ class CoroutinesAdapter:
                 for i, (op, n) in enumerate(script, start=1):
                     if op == 'raise':
                         env.log.append((g, i, '-'))
-                        raise (BoomBase() if env.base_exc else Boom())
+                        raise escaping()
                     if op == 'y':
                         env.log.append((g, i, '-'))
                         if n > 0:
@@ -121,7 +137,7 @@ class CoroutinesAdapter:
             v, ex = guarded(lambda: p.process(args[0] * self.Q))
         else:
             raise AssertionError(name)
-        ret = 'ok' if ex is None else ('raised' if isinstance(ex, (Boom, BoomBase)) else type(ex).__name__)
+        ret = 'ok' if ex is None else ('raised' if isinstance(ex, (Boom, BoomBase)) or ex is env.last_raised else type(ex).__name__)
         del ex
         obs = {'ret': ret, 'log': tuple(env.log), 'type_errors': self.type_errors}
         st, pst, pv, held = {}, {}, {}, {}
